@@ -35,6 +35,12 @@ def _mk_server():
     async def raising_tool(**kw):
         raise RuntimeError("tool exploded")
 
+    async def keyerror_tool(**kw):
+        return {"a": 1}["missing"]
+
+    async def res_keyerror():
+        raise KeyError("file:///keyerror")
+
     async def nonsense_tool(**kw):
         return object()
 
@@ -47,6 +53,8 @@ def _mk_server():
     srv.register_tool("ok", ok_tool, {"type": "object"}, "fine")
     srv.register_tool("raises", raising_tool, {"type": "object"}, "explodes")
     srv.register_tool("nonsense", nonsense_tool, {"type": "object"}, "returns an object()")
+    srv.register_tool("keyerror", keyerror_tool, {"type": "object"}, "raises KeyError")
+    srv.register_resource("file:///keyerror", res_keyerror)
     srv.register_resource("file:///ok", res_ok)
     srv.register_resource("file:///raises", res_raises)
     ph = srv.protocol_handler
@@ -57,6 +65,9 @@ def _mk_server():
     async def custom_raises(message, session_id):
         raise ValueError("custom handler failed")
 
+    async def custom_keyerror(message, session_id):
+        raise KeyError(getattr(message, "method", "?"))
+
     async def custom_nonsense(message, session_id):
         return {"not": "a tuple"}
 
@@ -66,6 +77,7 @@ def _mk_server():
     ph.register_method("custom/ok", custom_ok)
     ph.register_method("custom/raises", custom_raises)
     ph.register_method("custom/nonsense", custom_nonsense)
+    ph.register_method("custom/keyerror", custom_keyerror)
     ph.register_method("custom/none", custom_none)
     # a standard notification name that IS registered and whose handler fails / answers
     ph.register_method("notifications/roots/list_changed", custom_raises)
@@ -192,6 +204,9 @@ METHOD_CLASSES = {
     "toolsCallOk": "tools/call",
     "toolsCallRaises": "tools/call",
     "toolsCallNonsense": "tools/call",
+    "toolsCallKeyError": "tools/call",
+    "resReadKeyError": "resources/read",
+    "customKeyError": "custom/keyerror",
     "toolsCallUnknown": "tools/call",
     "toolsCallUnhashable": "tools/call",
     "resourcesList": "resources/list",
@@ -225,10 +240,10 @@ def _params(mclass, pshape):
         return {"name": 12, "uri": ["x"], "arguments": "str", "protocolVersion": 12, "clientInfo": "x"}
     base = {}
     if mclass.startswith("toolsCall"):
-        base["name"] = {"toolsCallOk": "ok", "toolsCallRaises": "raises", "toolsCallNonsense": "nonsense", "toolsCallUnknown": "nope", "toolsCallUnhashable": ["a"]}[mclass]
+        base["name"] = {"toolsCallOk": "ok", "toolsCallRaises": "raises", "toolsCallNonsense": "nonsense", "toolsCallKeyError": "keyerror", "toolsCallUnknown": "nope", "toolsCallUnhashable": ["a"]}[mclass]
         base["arguments"] = {"x": 1}
     if mclass.startswith("resRead"):
-        base["uri"] = {"resReadOk": "file:///ok", "resReadRaises": "file:///raises", "resReadUnknown": "file:///nope"}[mclass]
+        base["uri"] = {"resReadOk": "file:///ok", "resReadRaises": "file:///raises", "resReadKeyError": "file:///keyerror", "resReadUnknown": "file:///nope"}[mclass]
     if mclass == "initialize":
         base = {"protocolVersion": "2025-06-18", "clientInfo": {"name": "c", "version": "1"}, "capabilities": {}}
     if pshape == "argsNull":
